@@ -272,3 +272,28 @@ func CtxBad(ctx context.Context, work func(context.Context)) {
 	defer cancel()
 	go func() { work(ctx) }()
 }
+
+// ---- pointer elements of a decoded list ----
+
+type kekDoc struct{ Region string }
+
+type envDoc struct{ KEKs []*kekDoc }
+
+func ElemOk(e *envDoc) map[string]*kekDoc {
+	m := map[string]*kekDoc{}
+	for _, k := range e.KEKs {
+		if k == nil {
+			continue
+		}
+		m[k.Region] = k
+	}
+	return m
+}
+
+func ElemBad(e *envDoc) map[string]*kekDoc {
+	m := map[string]*kekDoc{}
+	for _, k := range e.KEKs {
+		m[k.Region] = k
+	}
+	return m
+}
